@@ -206,7 +206,12 @@ func c07Render(c c07Case, r *rand.Rand) string {
 				val = "RelevantOnly"
 			}
 		}
-		return "SecAction \"id:1,phase:1,pass,ctl:" + c.X + "=" + val + "\"\nSecRule ARGS \"@rx .\" \"id:2,phase:2,pass\"\n"
+		pre := ""
+		if strings.Contains(strings.ToLower(c.X), "limit") {
+			// a limit changed at run time meets bytes that were buffered under the old one, under the action that keeps a part
+			pre = "SecRequestBodyLimitAction ProcessPartial\nSecResponseBodyLimitAction ProcessPartial\nSecAction \"id:3,phase:3,pass,ctl:" + c.X + "=" + val + "\"\n"
+		}
+		return pre + "SecAction \"id:1,phase:1,pass,ctl:" + c.X + "=" + val + "\"\nSecRule ARGS \"@rx .\" \"id:2,phase:2,pass\"\n"
 	case "dir":
 		val := map[string]string{"good": "On", "boundary": "0", "negative": "-5", "garbage": "\"x y\" \\", "empty": "", "quoted": "\"1\""}[c.Y]
 		return c.X + " " + val + "\n" + rule("ARGS", "@rx .", "")
@@ -285,6 +290,7 @@ func c07Drive(w coraza.WAF, t traffic, jsonProc bool) (p string) {
 		body()
 		_, _ = tx.ProcessRequestBody()
 		it = tx.ProcessRequestHeaders()
+		body() // the client keeps sending after the headers were looked at (limits may have been changed by ctl meanwhile)
 		_, _ = tx.ProcessRequestBody()
 	case "r":
 		tx.AddResponseHeader("Content-Type", "text/plain")
@@ -303,6 +309,9 @@ func c07Drive(w coraza.WAF, t traffic, jsonProc bool) (p string) {
 	_ = it
 	tx.AddResponseHeader("Content-Type", "text/plain")
 	tx.AddResponseHeader("Set-Cookie", "a=b")
+	if t.order == "b" {
+		_, _, _ = tx.WriteResponseBody([]byte("early response bytes")) // response bytes offered before the response headers are processed
+	}
 	_ = tx.ProcessResponseHeaders(200, "HTTP/1.1")
 	_, _, _ = tx.WriteResponseBody([]byte("response body foo"))
 	_, _ = tx.ProcessResponseBody()
